@@ -31,6 +31,13 @@ MUTANTS = [
     dict(id='c05-as-str-order', prop='C05', rule='R5.1', file=ABC, old='"ACTGN"', new='"ACGTN"'),
     dict(id='c05-protein-swap', prop='C05', rule='R5.1', file=ABC, old="b'V' => Ok(AminoAcid::V),", new="b'V' => Ok(AminoAcid::W),"),
     dict(id='c05-err-wrong-char', prop='C05', rule='R5.1', file=ABC, old="_ => Err(InvalidSymbol(c as char)),", new="_ => Err(InvalidSymbol('?')),", occ=0),
+    dict(id='c05-enc-index-offbyone', prop='C05', rule='R5.2', file=AVX2, old="let index = _mm256_set1_epi8(a as i8);", new="let index = _mm256_set1_epi8((a + 1) as i8);"),
+    dict(id='c05-enc-unknown-not-cleared', prop='C05', rule='R5.2', file=SSE2F, old="unknown = _mm_andnot_si128(m, unknown);", new="unknown = _mm_and_si128(m, unknown);"),
+    dict(id='c05-enc-error-overwritten', prop='C05', rule='R5.2', file=AVX2, old="error = _mm256_or_si256(error, unknown);", new="error = unknown;"),
+    dict(id='c05-enc-tail-ignored', prop='C05', rule='R5.4', file=AVX2, old="            g.encode_into(&seq[i..], &mut dst[i..])?;", new="            let _ = g.encode_into(&seq[i..], &mut dst[i..]);"),
+    dict(id='c05-enc-tail-offset', prop='C05', rule='R5.4', file=SSE2F, old="            g.encode_into(&seq[i..], &mut dst[i..])?;", new="            g.encode_into(&seq[i..], &mut dst[i + 1..])?;"),
+    dict(id='c05-enc-rescan-from-i', prop='C05', rule='R5.3', file=AVX2, old="            for s in seq.iter() {\n                A::Symbol::from_ascii(*s)?;", new="            for s in seq[i.saturating_sub(32)..].iter().rev() {\n                A::Symbol::from_ascii(*s)?;"),
+    dict(id='c05-generic-wrong-slot', prop='C05', rule='R5.5', file=PLI, old="            dst[i] = A::Symbol::from_ascii(*c)?;", new="            dst[dst.len() - 1 - i] = A::Symbol::from_ascii(*c)?;"),
     # ---- C10
     dict(id='c10-complement-GT', prop='C10', rule='R10.1', file=ABC, old="Nucleotide::G => Nucleotide::C,", new="Nucleotide::G => Nucleotide::T,"),
     dict(id='c10-drop-rev', prop='C10', rule='R10.2', file=PWM, old="for (i, row) in self.data.iter().rev().enumerate() {", new="for (i, row) in self.data.iter().enumerate() {", occ=2),
